@@ -31,6 +31,8 @@ def run(cx):
     cx.rule("C04.R6", "TS", "the decision taken inside is_ready (the else branch gives up) is emitted before exec returns: the parent step is reviewed whatever the order in which its branches were initialised")
     from rules import c01
     c01.r6(cx, "C04.R6", only=r"Task::is_ready$", floor=1)
+    cx.rule("C04.R7", "E3", "Task::parent is the nearest task on the prev chain whose node level is lower than the level of THE TASK ITSELF (one fixed reference level for the whole walk): a step re-created by a backward jump from a deeper step must not adopt a task of the abandoned turn as its parent")
+    r7_parent(cx)
 
 
 def r2(cx):
@@ -486,3 +488,29 @@ def _is_node(f, pa, r, mk):
                 continue
         return False
     return False
+
+
+def r7_parent(cx):
+    m = cx.m
+    pa = Prov(m, "alias")
+    f = m.one(r"^%s::parent$" % TASK)
+    rec = [c for c in f.calls() if c.q == f.q]
+    cmps = []
+    for bi, b in enumerate(f.blocks):
+        for s_ in b["s"]:
+            if s_[0] == "A" and s_[2][0] == "bin" and s_[2][1] in ("Lt", "Gt", "Le", "Ge"):
+                l, r = pa.root(f, s_[2][2]), pa.root(f, s_[2][3])
+                cmps.append((s_[2][1], l, r, bi))
+
+    def lvl_of_self(r):
+        return r[0] == "param" and r[1] == 1 and [x for x in r[3] if x != "*"][-2:] == ["node", "level"]
+
+    def lvl_of_other(r):
+        fs = r[3] if r[0] in ("call", "local", "param") else ()
+        return [x for x in fs if x != "*" and not x.startswith("@") and not x.isdigit()][-2:] == ["node", "level"] and not lvl_of_self(r)
+    strict = [c for c in cmps if (c[0] == "Lt" and lvl_of_other(c[1]) and lvl_of_self(c[2])) or (c[0] == "Gt" and lvl_of_self(c[1]) and lvl_of_other(c[2]))]
+    ok = len(strict) == 1 and len(cmps) == 1 and not rec
+    cx.ob("C04.R7", "parent:fixed-reference-level", ok,
+          "Task::parent compares the level of each task on the prev chain with `self.node.level` (strictly lower), in one walk%s" % (
+              "" if ok else " - found %d level comparisons against self, %d comparisons in all, recursive calls: %d (a recursion compares each hop with the hop before it, not with the task that asked)" % (len(strict), len(cmps), len(rec))), f.loc())
+    cx.floor("C04.R7", 1)
